@@ -163,12 +163,16 @@ func init() {
 				Bounds: "write+Finalize+NewReader+read back: ids, ports, addresses (v4/v6), protocol flag, payload bytes, packet-index steps symbolic; packet count, directions, payload lengths 0..2, start time, packet-index base (incl. >= 2^32) enumerated"},
 			{Pkg: ix, Func: "ZZ_C01_RoundTrip", Desc: "one stream, packet timing variants", Quick: tier(P(1, 1, 2, 1, 4, 1, 3, 1, 1, 1, 1)), Thorough: tier(P(1, 1, 3, 1, 4, 2, 3, 1, 1, 1, 1)),
 				Bounds: "gaps of 1us, 0, 30ms, 2s between packets"},
+			{Pkg: ix, Func: "ZZ_C01_RoundTrip", Desc: "a stream longer than the 32-bit microsecond offset", Quick: tier(func() map[string]int { m := P(1, 1, 3, 1, 1, 1, 1, 1, 1, 1, 1); m["gapfrom"] = 4; return m }()),
+				Bounds: "1..3 packets 40 minutes apart (80 minutes > 2^32 microseconds in total; every single gap below 2^32 microseconds, as the importer's 5 minute inactivity timeout guarantees)"},
+			{Pkg: ix, Func: "ZZ_C01_RoundTrip", Desc: "a payload chunk around the 64 KiB record limit", Quick: tier(func() map[string]int { m := P(1, 1, 2, 1, 1, 1, 1, 1, 1, 1, 1); m["bigpayload"] = 1; return m }()),
+				Bounds: "the first packet carries 65534..65537 bytes (first and last two symbolic, the rest a fixed pattern): split over two packet records"},
 			{Pkg: ix, Func: "ZZ_C01_RoundTrip", Desc: "two streams, one packet each, same capture, index bases in different 2^32 windows", Quick: tier(P(2, 2, 1, 1, 1, 1, 2, 2, 1, 1, 1)), Thorough: tier(P(2, 2, 1, 2, 1, 2, 3, 3, 1, 1, 1))},
 			{Pkg: ix, Func: "ZZ_C01_RoundTrip", Desc: "two streams, up to 2 packets each, two captures", Quick: tier(P(2, 2, 2, 0, 1, 2, 1, 1, 1, 1, 1)), Thorough: tier(P(2, 2, 2, 1, 1, 2, 1, 1, 1, 1, 1))},
 			{Pkg: ix, Func: "ZZ_C01_SkipCounter", Quick: tier(nil), Bounds: "1 / 254 / 255 / 256 / 300 payload-less packets between two payload packets (sizes concretised), payload bytes symbolic"},
 		},
 		Assumptions: []string{"in-memory file system + typed encoding/binary codec + byte view of (*[N]byte)(unsafe.Pointer(&obj))", "stream validity as the importer produces it: >= 1 packet, non-decreasing timestamps, gaps < 2^32 us, payload indexes increasing, both addresses of one stream of equal length, distinct stream ids, distinct first source packets", "timestamps are concrete sample values (base 2023-11-14, offsets enumerated)"},
-		Outside: []string{"more than 2 streams / 3 packets per stream with symbolic content", "chunks above 2 bytes (packet splitting at 64 KiB)", "host-group overflow (16384 hosts)", "MarshalJSON"},
+		Outside: []string{"more than 2 streams / 3 packets per stream with symbolic content", "symbolic chunks above 2 bytes other than the 64 KiB entry", "single gaps of 2^32 microseconds or more between consecutive packets (not representable; the importer closes streams after 5 minutes of inactivity)", "host-group overflow (16384 hosts)", "MarshalJSON"},
 	}
 
 	M := func(kv ...int) map[string]int {
@@ -233,14 +237,14 @@ func init() {
 			{Pkg: mg, Func: "ZZ_C11_TagCalls", Isolate: true, Desc: "3 calls with sub-query references and renames", Quick: tier(map[string]int{"calls": 3, "names": 2, "defs": 2, "deffrom": 5, "callset": 1, "callkinds": 4, "loopbound": 2000})},
 		},
 		Assumptions: []string{"Manager constructed in-package as New() does, without watchers, converters and stored state; the real service loop goroutine runs under the engine's cooperative run-to-block scheduler (FIFO)", "stubbed out: saveState (JSON via reflection), startTaggingJobIfNeeded/startConverterJobIfNeeded/startMergeJobIfNeeded (no effect on the tag table), query.Parse = table of the definitions used (natively the real parser)", "oracle: digest of all tags unchanged when a call returns an error; every reference resolves; referencedBy mirrors the definitions; the graph is acyclic; ListTags.Referenced mirrors the definitions"},
-		Outside: []string{"converter attach/detach (external processes)", "histories longer than 3 (4) calls", "mark removal", "concurrent API callers"},
+		Outside: []string{"converter attach/detach (external processes)", "histories longer than 3 (4) calls", "concurrent API callers"},
 	}
 
 	svc := HarnessSpec{Pkg: mg, Func: "ZZ_SVC_Scenarios", Quick: &Tier{Params: map[string]int{"realjobs": 1, "scenarios": 12}, Samples: 12},
 		Thorough: &Tier{Params: map[string]int{"realjobs": 1, "scenarios": 12, "payloadmax": 6, "thresholdmax": 12}, Samples: 24},
 		Bounds: "twelve job-level schedules: sequential imports with merge; queued imports; an import completing while a merge is in flight; an import extending a stream while a tagging job of a data tag is in flight; an import that creates no index followed by a merge; a capture arriving out of chronological order (stream reset); a referenced tag edited (to a definition with other members / with no members) while the job of the tag referencing it is in flight; a view first used before the first import; a tag deleted, re-added and referenced while its job is in flight; a tag deleted while its job is in flight, then a merge; a stream marked while the job of a tag referencing the mark is in flight; a view held across later imports and a merge. Payload sizes of the first flow and the threshold of the data tag are symbolic"}
 	svcAssume := []string{"Manager constructed in-package as New() does (no watchers, converters, stored state); real service loop, real import/tagging/merge jobs and completion closures; goroutines under the engine's cooperative scheduler", "engine: Builder.FromPcap (cgo libpcap) replaced by a scripted importer that writes the index with the real Writer; natively the real importer reads generated capture files", "interleavings are sequenced by the harness at job granularity (the in-flight job's snapshot is taken by hand exactly as the starter does), so the schedule replays natively"}
-	svcOut := []string{"interleavings below job granularity", "converter jobs", "more than 4 captures", "restarts"}
+	svcOut := []string{"interleavings below job granularity", "converter jobs", "more than 4 captures"}
 	svcSub := HarnessSpec{Pkg: mg, Func: "ZZ_SVC_Scenarios", Desc: "with a tag whose definition has a sub-query", Quick: &Tier{Params: map[string]int{"realjobs": 1, "scenarios": 2, "subtag": 1}, Samples: 4},
 		Thorough: &Tier{Params: map[string]int{"realjobs": 1, "scenarios": 6, "subtag": 1, "payloadmax": 5, "thresholdmax": 10}, Samples: 8},
 		Bounds: "the sequential and the queued schedule with a fourth tag `@s:cport:1000 cport:@s:cport@:` (re-evaluated as a whole after every import)"}
